@@ -15,7 +15,7 @@ Clauses beyond C01:
 from .. import ir
 from ..paths import walk
 from .common import dict_build
-from .explcore import check_guard_and_counter, meanout_ok, same, impute_args, MEANOUT
+from .explcore import check_guard_and_counter, meanout_ok, meanout_arg, same, impute_args, MEANOUT
 from .sagecore import Sage, telescope, chain_end, getters
 from .sagelib import is_call_to, FEATURE_NAMES
 
@@ -39,10 +39,14 @@ def check(run):
     meanout_ok(run, run.prog, "NEW", "meanout")
     if sg.carried is not None and iev is not None:
         nxt = sg.carried[2]
-        ok = nxt[0] == "res" and nxt[2] == f"self.{sg.lf}" and len(nxt[3]) == 2 and not nxt[4] and nxt[3][0] == sg.y and \
-            nxt[3][1][0] == "res" and nxt[3][1][2] == MEANOUT and nxt[3][1][3] == (iev.res,)
+        ok = nxt[0] == "res" and nxt[2] == f"self.{sg.lf}" and len(nxt[3]) == 2 and not nxt[4] and nxt[3][0] == sg.y
         why = ""
-        if not ok:
+        if ok:
+            outs, why = meanout_arg(nxt[3][1])
+            ok = outs == iev.res
+            if outs is not None and not ok:
+                why = f"the mean is taken over {ir.show_nl(outs)[:100]}, not over the imputer's predictions"
+        if not ok and not why:
             if any(t[0] == "fn" and t[1] == "mean" for t in ir.subterms(nxt)):
                 why = "losses of the individual predictions are averaged instead of taking the loss of the mean prediction"
             else:
